@@ -13,6 +13,8 @@ CHECKS = {
          "provenance x history property; automatic IDs are adopted from the SUT, only freshness is demanded"),
  "C07": ("twin derivations (copy / pickle round trip / same-class constructor) as operations of the simulated world; equality at birth against the source's model, then edits interleaved across source and twins by the seeded scheduler with every actor compared with its own model after every step; in-place edits of nested attribute values on copy() twins",
          "the interleaving of edits across live objects is the schedule; ctor twins share nested node-attribute values by design and receive no nested edits"),
+ "C08": ("observers (every xgi callable whose first parameter is a network, enumerated by introspection, plus view/stat methods) interleaved with mutations; deep ordered snapshot incl. next automatic ID before/after each call, and a differential schedule: the same run with all reads elided must end in the same world",
+         "arguments are synthesised from parameter names and the current state; callables that never returned normally are listed in the evidence (callable_coverage)"),
  "C18": ("freeze as an operation of the world plus subhypergraph results; every structural call that would change an unfrozen copy must raise XGIError and change nothing; the mutator surface is discovered by probing dir(class) and in_place functions on an unfrozen copy and replaying on the frozen network; is_frozen checked on every actor at every step; copies of frozen networks are unfrozen, equal and editable",
          "argument synthesis for probed methods is by parameter name; methods for which no changing arguments are found are reported in the evidence as uncovered"),
  "C05": ("step-by-step refinement of three executable reference models (docstring transcriptions) over the full mutator alphabet, fault-free (strict) and fault-injecting (narrow relaxation) runs; swap/shuffle invariants; library error types",
